@@ -1,3 +1,4 @@
+import SpdxVerif.Props.C14Cost
 import SpdxVerif.Props.C14
 #print axioms Spdx.C14.expandTerm_length
 #print axioms Spdx.C14.expand_length
@@ -5,3 +6,8 @@ import SpdxVerif.Props.C14
 #print axioms Spdx.C14.leafCount_andOfOrs
 #print axioms Spdx.C14.expand_andOfOrs_length
 #print axioms Spdx.C14.alts_le_pow
+#print axioms Spdx.C14.scan_tokens_le
+#print axioms Spdx.C14.leafCount_le_tokens
+#print axioms Spdx.C14.slots_le
+#print axioms Spdx.C14.cost_inputs_bounded
+#print axioms Spdx.C14.and_only_linear
